@@ -45,7 +45,7 @@ func init() {
 		ID:          "C15",
 		Title:       "Parent and child (extension) stores stay consistent",
 		Technique:   "static analysis: per-iteration path rule for the child-store filter in every id scan, routing order rule in Update/DeleteById, forwarding table for the parent persist/indexing contexts, wrapper-normalisation rule for extended stores, path-construction rule for nested child data; parent chaining on every returning path; role-based discovery of the row-filtering scan functions",
-		LevelText:   "Decides on every path: each scan loop skips ids that lack child data (unless the store is extended) before evaluating the filter; extended stores wrap id iteration in the valid-ids cursor and normalise its initial position; loads return nothing for a plain parent entity through a non-extended child and the parent data through an extended one; Update tries the child-store handlers (forwarding the same field checker) before its own persist; the parent indexing context is created iff a parent exists and shares the error holder; the parent persist context forwards id, mutate context, field checker and create flag and shares the child's error holder; child data is nested below the parent's entity bucket. Query results on mixed populations are not decided. newIndexingContext creates and stores the parent store's context on every returning path unless there is no parent; the child-presence filter is checked in every scanner function that evaluates the query filter per row (found by role). Added later: child strategies are appended (CHILDREG); IterateIds hands out only the filtering scanner (IDCURSOR); FindById, LoadById and LoadEntity fill from the bucket the shared load lookup found (LOADERS). Strengthened in round 8: a child store hands the delete to its parent on every path. Added in round 10: once the child store's Update has run the update handler answers (true, that result) (CHILDUPDATE). Added in round 11: NewTypedBucket answers a fresh object on every path (NEWBUCKET); ENTITYBUCKET as in C05.",
+		LevelText:   "Decides on every path: each scan loop skips ids that lack child data (unless the store is extended) before evaluating the filter; extended stores wrap id iteration in the valid-ids cursor and normalise its initial position; loads return nothing for a plain parent entity through a non-extended child and the parent data through an extended one; Update tries the child-store handlers (forwarding the same field checker) before its own persist; the parent indexing context is created iff a parent exists and shares the error holder; the parent persist context forwards id, mutate context, field checker and create flag and shares the child's error holder; child data is nested below the parent's entity bucket. Query results on mixed populations are not decided. newIndexingContext creates and stores the parent store's context on every returning path unless there is no parent; the child-presence filter is checked in every scanner function that evaluates the query filter per row (found by role). Added later: child strategies are appended (CHILDREG); IterateIds hands out only the filtering scanner (IDCURSOR); FindById, LoadById and LoadEntity fill from the bucket the shared load lookup found (LOADERS). Strengthened in round 8: a child store hands the delete to its parent on every path. Added in round 10: once the child store's Update has run the update handler answers (true, that result) (CHILDUPDATE). Added in round 11: NewTypedBucket answers a fresh object on every path (NEWBUCKET); ENTITYBUCKET as in C05. Added in round 13: PROTOCOL as in C03; membership on the delete path is decided by the load, not by IsEntityPresent, unless the store asks whether it is extended (DELETEMEMBER).",
 		LevelNote:   "Trusted: go/types, x/tools SSA; user-supplied Mapper/EntityStrategy behaviour.",
 		DesignRef:   "DESIGN.md C15",
 		Explanation: "Sites: uniqueIndexScanner.Next/nextUnpaged, sortingScanner.ScanCursor, BaseStore.IterateValidIds/getEntityBucketForLoad/Update/newIndexingContext, ChildStoreUpdateHandler.HandleUpdate, PersistContext.GetParentContext, NewBaseStore, GetEntityBucket.",
@@ -74,7 +74,7 @@ func init() {
 		ID:          "C16",
 		Title:       "System entities can only be changed from a system context",
 		Technique:   "static analysis: who-may-write rule for the system flag (written only on the create edge), hook-placement rule (update check before the persist, create check after it, delete check unconditional), complete decision table of checkOperation, constant-result rule for the two context kinds; error-holder sharing between child and parent persist contexts",
-		LevelText:   "Decides on every path: the system flag field is written only by code reachable exclusively through the is-create edge of SetBaseValues; the constraint checks an update in ProcessBeforeUpdate (i.e. against the stored flag, before anything is persisted), a create in ProcessAfterUpdate and a delete unconditionally, recording the refusal in the error holder; checkOperation refuses exactly when the flag is set and the context is not a system context (8-row table); ordinary contexts answer IsSystemContext=false and system contexts true, and wrapping is idempotent. Registration of the constraint by user stores and the state after a refused operation (C07) are not decided here. A refusal recorded in the child's error holder survives the hand-over to the parent persist context (the parent bucket adopts the child's holder, not the reverse). Added later: the error result of the delete-constraint step is looked at on every path (LOOKEDAT); the flag read is followed into predicate helpers the hooks hand their own constraint and context to. Added in rounds 8-9: the context fn runs with is the caller's own (TXFN); the indexing context records into the operation's own holder (HOLDER); create-or-not handed to the contexts is a constant of the entry point (CREATECTX). Added in round 10: where fn runs with what setTx answered, every setTx answers with the context it was called on (TXFN). Added in round 11: the persist context writes through the bucket object the indexing context records into (SAMEBUCKET). Added in round 12: Update reaches success only through ProcessBeforeUpdate unless a child store handled it (HOOKSRUN); the hooks of every level of the store chain run (PROTOCOL, cross-listed).",
+		LevelText:   "Decides on every path: the system flag field is written only by code reachable exclusively through the is-create edge of SetBaseValues; the constraint checks an update in ProcessBeforeUpdate (i.e. against the stored flag, before anything is persisted), a create in ProcessAfterUpdate and a delete unconditionally, recording the refusal in the error holder; checkOperation refuses exactly when the flag is set and the context is not a system context (8-row table); ordinary contexts answer IsSystemContext=false and system contexts true, and wrapping is idempotent. Registration of the constraint by user stores and the state after a refused operation (C07) are not decided here. A refusal recorded in the child's error holder survives the hand-over to the parent persist context (the parent bucket adopts the child's holder, not the reverse). Added later: the error result of the delete-constraint step is looked at on every path (LOOKEDAT); the flag read is followed into predicate helpers the hooks hand their own constraint and context to. Added in rounds 8-9: the context fn runs with is the caller's own (TXFN); the indexing context records into the operation's own holder (HOLDER); create-or-not handed to the contexts is a constant of the entry point (CREATECTX). Added in round 10: where fn runs with what setTx answered, every setTx answers with the context it was called on (TXFN). Added in round 11: the persist context writes through the bucket object the indexing context records into (SAMEBUCKET). Added in round 12: Update reaches success only through ProcessBeforeUpdate unless a child store handled it (HOOKSRUN); the hooks of every level of the store chain run (PROTOCOL, cross-listed). Added in round 13: DELETEMEMBER as in C15 (the system-entity guard of an extended store is not skipped for base-only rows).",
 		LevelNote:   "Trusted: go/types, x/tools SSA, DECIDE interpreter.",
 		DesignRef:   "DESIGN.md C16",
 		Explanation: "Sites: every setter call whose field-name argument is FieldIsSystemEntity; systemEntityConstraint methods; mutateContext/systemMutateContext.IsSystemContext; NewSystemMutateContext.",
